@@ -51,6 +51,29 @@ func runC17(c *Ctx) {
 	}
 	cs := func(f string) *types.Var { return c.field("neutrino", "ChainService", f) }
 
+	c.rule("C17.O4", "a rescan is released when the client stops: once the subscription manager has stopped every Subscribe fails, and a rescan that is catching up learns of the shutdown only through that failure; in rescanState.rescan the failure edge of chain.Subscribe therefore leads to a return within the same iteration (the failure is never retried around the loop)", func() {
+		fn := c.fn("(*neutrino.rescanState).rescan")
+		sub := c.method("neutrino", "ChainSource", "Subscribe")
+		subs := find(fn, callTo(sub))
+		g := errNil("chain.Subscribe", subs, 1)
+		back := ir.BackEdges(fn)
+		var bad []string
+		for _, gs := range g.sites {
+			e := gs.br.Other()
+			reach := ir.Reach([]*ssa.BasicBlock{e.From.Succs[e.Succ]}, nil)
+			for be := range back {
+				if reach[be.From] {
+					bad = append(bad, "after the failed Subscribe at "+c.at(gs.site)+" the loop can go round again (back edge at "+c.at(be.From.Instrs[len(be.From.Instrs)-1])+")")
+				}
+			}
+		}
+		for _, u := range g.unchecked {
+			bad = append(bad, "the error of the Subscribe at "+c.at(u)+" is not examined")
+		}
+		sort.Strings(bad)
+		c.verdict(len(g.sites) >= 1 && len(bad) == 0, c.nm(fn)+" | a failed Subscribe ends the rescan", c.P.Pos(fn.Pos()), fmt.Sprintf("%d Subscribe call(s): the failure edge reaches only returns", len(subs)), join(uniq(bad)), c.ats(subs)...)
+	})
+	c.rule("C17.P2", "Stop completes: "+eventsUnlockedDoc, func() { c.eventsUnlocked() })
 	c.rule("C17.B1", "blocking discipline over both modules: every blocking select has an arm that becomes ready at shutdown or after a bounded time (a close-only signal channel, context.Done or a timer); every unconditional send / receive is a tabled site with a reason and a supporting obligation; buffered classes are allocated with constant capacity >= 1", func() {
 		// reply sends of handleQuery: one row per type-switch case that carries a
 		// channel field (exactly-once is C17.X1), independent of field names
